@@ -67,7 +67,8 @@ class C18(Check):
                           st.lists(st.tuples(st.integers(0, 15), st.integers(1, 60)), max_size=12).map(lambda l: [x for d, n in l for x in [99] * n + [d]]))
         return st.tuples(st.integers(2, maxt), st.lists(prog, min_size=maxt, max_size=maxt), sched, st.sampled_from(["controlled"] * 4 + ["free"]),
                          st.lists(st.integers(0, 1), min_size=maxt, max_size=maxt), st.booleans()).map(
-            lambda x: {"nthreads": x[0], "threads": x[1][:x[0]], "schedule": x[2], "mode": x[3], "tokens": x[4][:x[0]], "start_logged_in": x[5]})
+            lambda x: {"nthreads": x[0], "threads": x[1][:x[0]], "schedule": x[2], "mode": x[3], "tokens": x[4][:x[0]], "start_logged_in": x[5],
+                       "init_flags": K.CKF_OS_LOCKING_OK | (K.CKF_LIBRARY_CANT_CREATE_OS_THREADS if len(x[2]) % 2 else 0)})
 
     # ------------------------------------------------------------------------------------------------------
     def compile(self, prog, toks):
@@ -186,7 +187,8 @@ class C18(Check):
         try:
             threads, metas = self.compile(prog, toks)
             controlled = prog["mode"] == "controlled"
-            setup = [{"fn": "init_callbacks"} if controlled else {"fn": "C_Initialize", "flags": K.CKF_OS_LOCKING_OK}]
+            # free mode: OS locking, requested with or without CKF_LIBRARY_CANT_CREATE_OS_THREADS (both ask the library to lock with OS primitives)
+            setup = [{"fn": "init_callbacks"} if controlled else {"fn": "C_Initialize", "flags": prog.get("init_flags", K.CKF_OS_LOCKING_OK)}]
             for k, tok in enumerate(toks):
                 setup.append({"fn": "C_OpenSession", "slot": tok.slot, "flags": RW, "save": "main%d" % k})
                 if prog.get("start_logged_in"):
@@ -236,7 +238,31 @@ class C18(Check):
         "priv_make": [["priv_make", 0, 2]],
     }
 
+    def stress(self, ctx, tier, shard, nshards):
+        """free-running stress under ASan for every way of asking for OS locking: 8 threads, each 6 rounds of open / create / find / read / digest / destroy /
+        close on its own session objects (fixed programs, no generator); sequential model for own objects, handles distinct, no crash"""
+        rounds = [["open", 0, 1], ["create_s", 0, 0], ["find_own", 0, 0], ["read", 0, 0], ["digest", 1, 3], ["create_t", 0, 0], ["find_own", 1, 0], ["destroy", 0, 0], ["close", 0, 0]]
+        combos = [K.CKF_OS_LOCKING_OK, K.CKF_OS_LOCKING_OK | K.CKF_LIBRARY_CANT_CREATE_OS_THREADS]
+        runs = [(f, r) for f in combos for r in range(3 if tier == "quick" else 12)]
+        for i, (flags, r) in enumerate(runs):
+            if i % nshards != shard:
+                continue
+            prog = {"nthreads": 8, "threads": [rounds * 6 for _ in range(8)], "schedule": [], "mode": "free", "tokens": [t % 2 for t in range(8)] if r % 2 else [0] * 8,
+                    "start_logged_in": True, "init_flags": flags}
+            try:
+                self.execute(ctx, prog)
+            except WorkerDied as d:
+                v = self.on_worker_death(ctx, prog, d)
+                if v is not None:
+                    return v
+            ctx.label("stress_runs")
+            ctx.label("stress_runs_flags_%d" % flags)
+        return None
+
     def extra(self, ctx, tier, shard, nshards):
+        v = self.stress(ctx, tier, shard, nshards)
+        if v is not None:
+            return v
         pairs = [(a, b) for a in sorted(self.SWEEP_T0) for b in sorted(self.SWEEP_T1)]
         cap = 24 if tier == "quick" else 600          # points per pair: all of a short call, evenly spaced ones (offset rotating with the seed) of a long one
         total = 0
